@@ -215,6 +215,14 @@ func (r *propRun) exec() int {
 			blDead[id] = true
 		}
 	}
+	// obligations recorded as undecided on the unchanged tree are never part of the claim (in any
+	// tier); the quick tier does not even attempt them
+	blNotClaimed := map[string]bool{}
+	if bl != nil && !r.update {
+		for _, id := range bl.Undecided {
+			blNotClaimed[id] = true
+		}
+	}
 	blUndecided := map[string]bool{}
 	if bl != nil && r.tier == "quick" && !r.update {
 		for _, id := range bl.Undecided {
@@ -365,7 +373,7 @@ func (r *propRun) exec() int {
 					}
 					break
 				}
-				inClaim := blDis[o.ID] || blClean[o.Func] || (!def.BaselineClaims && !u.Sweep)
+				inClaim := (blDis[o.ID] || blClean[o.Func] || (!def.BaselineClaims && !u.Sweep)) && !blNotClaimed[o.ID]
 				var rp *ReplayResult
 				if res.R.Status == "skipped" {
 					rec.Class = "undecided"
